@@ -335,6 +335,40 @@ func main() {
 			runProgram(c, "shape", &p, name, scriptCap, 0)
 		}
 	}
+	// a second, overlapping branch on a branching node (small shapes)
+	for _, base := range shapes {
+		if len(base.Nodes) > 2 || len(base.Branches) == 0 {
+			continue
+		}
+		for _, sb := range gprog.SecondBranchVariants(base, false) {
+			q := *sb
+			if gprog.HasCycle(&q) {
+				ar := 1
+				for _, b := range q.Branches {
+					if b.Multi {
+						ar *= 1 << len(b.Targets)
+					} else {
+						ar *= len(b.Targets)
+					}
+				}
+				q.MaxSteps = 1
+				if ar*ar <= scriptCap {
+					q.MaxSteps = 2
+				}
+				if ar > scriptCap {
+					continue
+				}
+			}
+			name := "2br/" + q.String()
+			if !c.Mine(name) {
+				continue
+			}
+			if c.TimeUp() {
+				break
+			}
+			runProgram(c, "shape", &q, name, scriptCap, 0)
+		}
+	}
 	// runtime max-steps option overriding the compile-time value, on a cyclic and an acyclic program
 	for _, rt := range []int{1, 2, 3} {
 		for _, key := range []string{"loop", "linear"} {
